@@ -273,7 +273,14 @@ def trace_legality(wl, tmp, jobs):
   cwd = os.path.dirname(planned.ninja_path)
   p = subprocess.run([ninja_bin(), "-j", str(jobs), "-k", "0"], cwd=cwd, env=env,
                      capture_output=True, text=True, timeout=300)
-  plan, steps = simbuild.read_plan(planned)
+  try:
+    plan, steps = simbuild.read_plan(planned)
+  except (ninja_model.PlanRejected, simbuild.StepUnparseable):
+    # a plan the planner got wrong is the check's business; here it only
+    # matters that the real tool refuses it too
+    if p.returncode == 0:
+      raise kernel.HarnessError("real ninja built a plan the model rejects")
+    return -1
   events = []
   if os.path.exists(log):
     events = [json.loads(l) for l in open(log)]
